@@ -2,6 +2,7 @@ package props
 
 import (
 	"fmt"
+	"strings"
 	"testing"
 
 	"pgregory.net/rapid"
@@ -12,7 +13,11 @@ import (
 func init() { register("C02", checkC02) }
 
 func genC02(t *rapid.T) *Case {
-	g := newG(t, articleProfile())
+	p := articleProfile()
+	if rapid.Bool().Draw(t, "carriers") {
+		p = carrierProfile()
+	}
+	g := newG(t, p)
 	c := &Case{Property: "C02", HTML: g.page()}
 	c.Opts = genOpts(t, 50)
 	return c
@@ -69,6 +74,29 @@ func checkC02(c *Case) (*Violation, caseInfo) {
 		}
 		if viol != nil {
 			break
+		}
+	}
+
+	// whole-word form: a word of either view must be exactly one source token (a word fused
+	// from two tokens, or a fragment of one, would be invented text).
+	if viol == nil {
+		wordsText := strings.Fields(punctToSpace(res.Text))
+		wordsHTML := visibleWordsOfOutput(res.Node)
+		for i, ws := range [][]string{wordsText, wordsHTML} {
+			for _, w := range ws {
+				if inner := rxToken.FindString(w); inner != w {
+					// raw markup text of noscript & co. inside a retained data table or figure is
+					// class-B content, which C04 explicitly allows there
+					if stb, ok := src.ByTok[inner]; ok && stb.ClassB {
+						continue
+					}
+					viol = violationf("C02 fabricated-word view="+[]string{"text", "html"}[i], "word %q in the %s view is not a word of the source", w, []string{"text", "html"}[i])
+					break
+				}
+			}
+			if viol != nil {
+				break
+			}
 		}
 	}
 
